@@ -32,6 +32,30 @@ CLAIMED = {
          "Transparency is structural in the model (Read returns the chunk untouched) and validated by the differential"),
    technique="Lean 4 invariant proof (state = canonical function of delivered bytes) + exhaustive/random differential",
    design='7/C04'),
+ 'C05': dict(
+   text=("Proof (Lean 4): for every inbound header map, injector list and outcome assignment, after rewriteFunc the header "
+         "under every injected name holds exactly the proxy's value or nothing (no_spoof, at_most_one); rewriteFunc's statement "
+         "sequence is regenerated from the source; model tied to the real HTTPHandler by an exact differential with scripted injectors"),
+   note=("Trusted: Lean kernel + standard axioms; translator; harness. httputil.ReverseProxy's prelude and header canonicalisation are "
+         "assumed contracts (mirrored and compared). Found and fixed D1 (fix: commit e511b47)"),
+   technique="Lean 4 theorem over the injector fold + handler-level differential with spec oracle",
+   design='7/C05'),
+ 'C09': dict(
+   text=("Proof (Lean 4): X-Forwarded-For = client's list + peer IP, X-Forwarded-Host = client's Host, X-Forwarded-Proto = https iff "
+         "the inbound request is marked TLS, client Forwarded never survives (xff_spec, xfh, xfp, no_client_forwarded) for every "
+         "request and configuration; handler-level differential. The end-to-end fact that both protocols deliver a TLS-marked "
+         "request is checked by the e2e stream"),
+   note=("Trusted: Lean kernel + standard axioms; translator; harness. SetXForwarded / ReverseProxy prelude / net.SplitHostPort are "
+         "assumed contracts (mirrored and compared)"),
+   technique="Lean 4 theorems over the rewrite model + handler-level differential with spec oracle",
+   design='7/C09'),
+ 'C15': dict(
+   text=("Proof (Lean 4): ServeHTTP answers locally (200, OK) iff probe support is on and the first User-Agent value begins with "
+         "'kube-probe/', otherwise forwards — never both, never neither (route_exclusive, disabled_forwards); probe test, local "
+         "answer and flag wiring regenerated from the source; handler-level differential over User-Agent classes"),
+   note="Trusted: Lean kernel + standard axioms; translator; harness; http.Request.UserAgent() = first header value",
+   technique="Lean 4 decision-logic theorem + regenerated facts + differential",
+   design='7/C15'),
 }
 ALL = [f'C{i:02d}' for i in range(1, 21)]
 
